@@ -943,10 +943,10 @@ func (c1 ratConst) String() string {
 	return newFloatConst(0).setRat(c1.r).String()
 }
 
-func (c1 ratConst) bool() bool             { return false }
-func (c1 ratConst) string() string         { return "" }
-func (c1 ratConst) int64() int64           { return c1.r.Num().Int64() }
-func (c1 ratConst) uint64() uint64         { return c1.r.Num().Uint64() }
+func (c1 ratConst) bool() bool     { return false }
+func (c1 ratConst) string() string { return "" }
+func (c1 ratConst) int64() int64   { return c1.r.Num().Int64() }
+func (c1 ratConst) uint64() uint64 { return c1.r.Num().Uint64() }
 func (c1 ratConst) float64() float64 {
 	f, _ := c1.r.Float64()
 	// Return 0 if it is -0.
